@@ -199,18 +199,19 @@ theorem pres_withScope (scope : Str) {g : Gen} (hg : Pres R g) :
 
 theorem pres_kwRef {rec : Rec} (hrec : ∀ i s, Pres R (rec i s)) (ref inst : Json) :
     Pres R (kwRef env rec ref inst) := by
-  refine ⟨fun b st => ?_⟩
-  unfold kwRef
+  refine kwRef_cases (P := Pres R) (fun hg hh => ⟨fun b st => ?_⟩) (fun r => ⟨fun b st => ?_⟩)
+    ⟨fun _ st => H.refl st⟩ ⟨fun _ st => H.refl st⟩ ref
+  · unfold ifTopEmpty; split
+    · exact hg.pres b st
+    · exact hh.pres b st
+  rw [kwRef_str]
+  have h := H.resolve r st
   split
-  · rename_i r
-    have h := H.resolve r st
-    split
-    · rename_i url target st1 heq
-      rw [heq] at h
-      exact H.trans h ((pres_withScope H url (hrec inst target)).pres b st1)
-    · rename_i heq; rw [heq] at h; exact h
-    · rename_i heq; rw [heq] at h; exact h
-  · exact H.refl st
+  · rename_i url target st1 heq
+    rw [heq] at h
+    exact H.trans h ((pres_withScope H url (hrec inst target)).pres b st1)
+  · rename_i heq; rw [heq] at h; exact h
+  · rename_i heq; rw [heq] at h; exact h
 
 /-- **the generic lemma**: a reflexive, transitive relation that ignores the scope stack and
     contains the resolver's elementary moves gives a `Closed` predicate -/
